@@ -484,6 +484,28 @@ def float_pow_cases(tier):
     return out
 
 
+def float_mod_cases(tier):
+    """a % b on floats: the remainder with the sign of the divisor (Python's %), compared bit for bit where the quotient is not at a
+    rounding boundary"""
+    from ..table import ERR, UNSPEC
+    from ..core import xfloat
+    vals = [0.0, 1.0, -1.0, 2.0, -2.0, 4.0, -4.0, 0.5, -0.5, 5.0, -5.0, 7.5, -7.5, 1e300, -1e300, 3.0, -3.0]
+    out = []
+    for a in vals:
+        for b in vals:
+            if b == 0:
+                exp = ERR
+            elif a != 0 and abs(a) < abs(b) * 1e-9:
+                exp = UNSPEC
+            else:
+                exp = a % b
+                if exp == 0:
+                    exp = UNSPEC if a == 0 else abs(exp) if b > 0 else -abs(exp)   # an exact multiple: a zero with the divisor's sign
+            for form in ('(%s) %% (%s)', 'mod(%s, %s)'):
+                out.append({'sig': 'C02|float-mod|%s|%r|%r' % (form[:3], a, b), 'src': form % (xfloat(a), xfloat(b)), 'exp': exp})
+    return out
+
+
 def run(tier):
     rep = Report(PROP, tier, 'model_checking',
                  'reference evaluator written from the book, in lock-step with the implementation: (1) all operator strings of <=2 binary '
@@ -520,6 +542,9 @@ def run(tier):
             if cls in ('crash', 'rejected') or why:
                 rep.fail(Failure(PROP, '%s|%s' % (it[4], why or cls), {'src': it[0]}, repr(it[1]), actual,
                                  mk_unit_job([it[3]], [('c0', 'let c0 = ()->{ %s };' % it[0])], None, None, {'max_items': 64})))
+    fm = float_mod_cases(tier)
+    rep.bounds['float_mod_cases'] = len(fm)
+    run_table(rep, fm, {'prelude': [PRELUDE]}, chunk=200)
     fp = float_pow_cases(tier)
     rep.bounds['float_pow_cases'] = len(fp)
     run_table(rep, fp, {'prelude': [PRELUDE]}, chunk=200)
